@@ -586,7 +586,10 @@ var wrongPrefixes = []string{"", "cashu", "cashuC", "cashua", "cashub", "CASHUA"
 	"cashu:", "cashuAcashuA", "cashuBcashuB", "cashuAcashuB", "web+cashu://cashuA", "cashu:cashuB", "https://wallet.cashu.me/?token=cashuA", "Cashua", "cashu\uff21", "creqA"}
 
 // weights of the input families (index = case label in drawDecoderInput)
-var inputKindWeights = []int{10, 8, 10, 8, 11, 9, 5, 10, 8, 4, 10, 8, 4, 5, 0, 1, 2, 3, 6, 7, 12, 13}
+var inputKindWeights = []int{10, 8, 10, 8, 11, 9, 5, 10, 8, 4, 10, 8, 4, 5, 0, 1, 2, 3, 6, 7, 12, 13, 14, 14}
+
+// what a lenient decoder might strip before it looks at the prefix: white space, URI schemes, quotes
+var decorations = []string{"", " ", "  ", "\t", "\n", "\r\n", "      ", "cashu:", "cashu://", "web+cashu://", "CASHU:", "\"", "'", "\ufeff", "\x00", "cashu: "}
 
 // drawDecoderInput returns the input and the name of the family it came from.
 func drawDecoderInput(t *rapid.T) (input, kind string) {
@@ -652,6 +655,15 @@ func drawDecoderInput(t *rapid.T) (input, kind string) {
 	case 12:
 		prefix := rapid.SampledFrom([]string{"cashuA", "cashuB"}).Draw(t, "prefix")
 		return prefix + drawEncode(t, rapid.SliceOfN(rapid.Byte(), 0, 64).Draw(t, "rawbytes")), "prefix_plus_random_bytes"
+	case 14: // short text wrapped in what a lenient decoder might strip (a "string whatsoever" shorter than a prefix once stripped)
+		var core string
+		if rapid.Bool().Draw(t, "core_prefixed") {
+			core = rapid.SampledFrom([]string{"cashuA", "cashuB"}).Draw(t, "prefix") +
+				rapid.StringOfN(rapid.RuneFrom([]rune(b64urlAlphabet+"=")), 0, 4, -1).Draw(t, "tail")
+		} else {
+			core = rapid.StringOfN(rapid.RuneFrom(shortAlphabet), 0, 8, -1).Draw(t, "short")
+		}
+		return rapid.SampledFrom(decorations).Draw(t, "lead") + core + rapid.SampledFrom(decorations).Draw(t, "trail"), "decorated_short"
 	default:
 		if rapid.Bool().Draw(t, "bytes") {
 			return string(rapid.SliceOfN(rapid.Byte(), 0, 40).Draw(t, "anybytes")), "arbitrary_bytes"
@@ -770,6 +782,21 @@ func TestDecodeShortExhaustive(t *testing.T) {
 	reportAgg(t, agg)
 }
 
+// Every string of length 0..7 (thorough: 0..8) over the characters of the URI form and white space: what remains
+// after a decoder has stripped a scheme or blanks may be shorter than a version prefix.
+func TestDecodeSchemeExhaustive(t *testing.T) {
+	const alphabet = "cashu:AB \n"
+	maxLen := 7
+	if os.Getenv("VERIF_TIER") == "thorough" {
+		maxLen = 8
+	}
+	agg := map[string]*sigAgg{}
+	n := enumerate(alphabet, maxLen, []string{""}, agg)
+	rec.EvalN(n)
+	rec.Exhaustive(fmt.Sprintf("all strings of length 0..%d over %q x 3 decoders", maxLen, alphabet), n)
+	reportAgg(t, agg)
+}
+
 // "cashuA"/"cashuB" followed by every string of length 0..3 over the base64url alphabet and '=':
 // every payload of 0..2 bytes (`{}`, `[]`, `0`, CBOR a0, 80, f6, ...) in every padding variant.
 func TestDecodePrefixedExhaustive(t *testing.T) {
@@ -793,6 +820,8 @@ func FuzzDecode(f *testing.F) {
 		f.Add("cashuB")
 		f.Add("cashuAe30=")
 		f.Add("cashuBoA")
+		f.Add("cashu:cashuA")
+		f.Add(" cashuB\n")
 	}
 	f.Fuzz(func(t *testing.T, s string) {
 		for _, v := range checkTotal(s).violations {
